@@ -5,6 +5,7 @@ mod extract_restr;
 mod extract_send;
 mod extract_sites;
 mod extract_tables;
+mod lexobs;
 mod obs;
 mod run;
 mod rs2lean;
@@ -72,6 +73,12 @@ fn main() -> ExitCode {
         }
         Some("sink") if args.len() == 6 => {
             print!("{}", run::cmd_sink(&args[2], &args[3], args[4].parse().unwrap_or(2000), args[5].parse().unwrap_or(1)));
+            ExitCode::SUCCESS
+        }
+        Some("lex") if args.len() == 4 => {
+            let src = fs::read_to_string(&args[2]).unwrap_or_default();
+            let cut = src.find("pub mod error {").unwrap_or(src.len());
+            print!("{}", lexobs::lex(&src[..cut], &args[3]));
             ExitCode::SUCCESS
         }
         Some("obs") if args.len() == 3 => {
